@@ -82,5 +82,5 @@ GetsAgree == ~bad
 CbOnce == cbs <= 1 /\ (cbs = 1 <=> status)
 ReadyExact == Kind = "count" => (status <=> nsets >= Count)
 \* scenario sanity: nobody waits for ever in get
-NoStuck == (\A t \in Thr : pc[t] \in {"idle", "g_spin"} /\ (pc[t] = "idle" => ~HasOp(t))) => (\A t \in Thr : pc[t] = "idle")
+NoStuck == (\A t \in Thr : (pc[t] = "idle" /\ ~HasOp(t)) \/ pc[t] = "g_spin") => (status \/ \A t \in Thr : pc[t] = "idle")
 =============================================================================
